@@ -82,6 +82,9 @@ def words_equal_cond(smt, a, b):
         return None
     fa = smt.fp_from_bits(A) if not isinstance(av, int) else smt.fpval(av)
     fb = smt.fp_from_bits(B) if not isinstance(bv, int) else smt.fpval(bv)
+    # both words are (bit patterns of) the same float term up to rewriting: equal, or both NaN
+    if z3.simplify(fa).eq(z3.simplify(fb)):
+        return None
     return z3.Or(A == B, z3.And(z3.fpIsNaN(fa), z3.fpIsNaN(fb)))
 
 
